@@ -400,8 +400,11 @@ def check(P, tier, seed):
     }
     if hasattr(P, 'extra_evidence'):
         ev['coverage'].update(P.extra_evidence(cases, obs))
-    os.makedirs(os.path.join(VERIF, 'evidence'), exist_ok=True)
-    with open(os.path.join(VERIF, 'evidence', f'{P.ID}.json'), 'w') as f:
+    # development runs against a scratch copy (VERIF_REPO) must not overwrite the evidence of /repo
+    evdir = os.path.join(VERIF, 'evidence') if os.environ.get('VERIF_REPO', '/repo') == '/repo' \
+        else os.path.join(VERIF, '.work', 'evidence-scratch')
+    os.makedirs(evdir, exist_ok=True)
+    with open(os.path.join(evdir, f'{P.ID}.json'), 'w') as f:
         json.dump(ev, f, indent=1, default=str)
     for ln in out_lines:
         print(ln)
